@@ -26,3 +26,10 @@ Print Assumptions C18_no_persistent_write.
 Theorem C18_clock_only_in_ack_envelope : clock_sites_ok = true.
 Proof. exact clock_only_in_ack_and_html_header. Qed.
 Print Assumptions C18_clock_only_in_ack_envelope.
+
+(* No reachable function lets the iteration order of a set (which follows the interpreter's hash seed) reach a result: a set is
+   only tested for membership, measured, sorted without a key, or listed and sorted without a key in the next statement. *)
+Theorem C18_no_hash_order_leak :
+  forall f line what, Reachable f -> ~ In (f, line, what) order_sites.
+Proof. exact no_order_leak. Qed.
+Print Assumptions C18_no_hash_order_leak.
